@@ -190,6 +190,13 @@ def annotate_fn(fs, text, negctl=False):
 
     # --- proof blocks (anchored on lines of the body)
     for pi, pr in enumerate(fs.proofs):
+        if pr.get('at') == 'loop_end':
+            k = pr.get('loop', 0)
+            if k >= len(loops):
+                raise Lost("fn %s: proof placement loop_end: loop #%d not found" % (fs.name, k))
+            block = ''.join('    %s %sproof%d\n' % (ln, TAG + fs.label + ':', pi) for ln in pr['text'].strip('\n').split('\n'))
+            inserts.append((loops[k]['end'], block))
+            continue
         if pr.get('at') == 'body_start':
             block = ''.join('\n        %s %sproof%d' % (ln, TAG + fs.label + ':', pi) for ln in pr['text'].strip('\n').split('\n'))
             inserts.append((open_b + 1, block))
